@@ -3,7 +3,7 @@ the abstract schema(s), which namespace each file declares, and which components
 from sym import Selector
 from schema_model import *
 from scen import Scenario
-from xmltree import perms
+from xmltree import perms, Opt
 
 NS1 = 'http://example.com/v1/types'
 NS2 = 'http://example.com/v2/messages'
@@ -232,7 +232,7 @@ def q_rebind(tier='quick'):
 # ------------------------------------------------------------------------------------------------ C10: namespaces
 
 ADV_URIS = ['http://example.com/v1/types', 'http://example.com/v2/types', 'http://example.com/typ', 'urn:example:types',
-            'http://example.com/types/', 'http://example.com/my-types', 'http://example.com/t.y.p.e', 'http://example.com/v1/messages']
+            'http://example.com/api/v11', 'http://example.com/api/v1', 'http://example.com/types/', 'http://example.com/my-types', 'http://example.com/t.y.p.e', 'http://example.com/v1/messages']
 
 
 def n_namespaces(tier='quick'):
@@ -269,7 +269,7 @@ def n_within(tier='quick'):
 def s_xref(tier='quick'):
     """element ref= to a global element of ANOTHER namespace (imported file); the two namespace URIs are symbolic over
     adversarial URIs; the start file's target namespace has no xmlns declaration of its own"""
-    dom = ADV_URIS[:4] if tier == 'quick' else ADV_URIS
+    dom = ADV_URIS[:6] if tier == 'quick' else ADV_URIS
     ua = Selector('uri_a', dom)
     ub = Selector('uri_b', dom)
     remote = GEl('Remote', content=Seq([El('r', 'xs:string')]))
@@ -305,7 +305,7 @@ def w_ops(tier='quick', headers=0, other_ns=False):
     if headers == 0:
         parts_attr = Selector('parts_attr', [ABSENT, 'yes'])
         sels.append(parts_attr)
-        bparts = smap(lambda pa, pn: ABSENT if pa == ABSENT else pn, parts_attr.sym(), partn.sym())
+        bparts = Opt(partn.sym(), parts_attr.var != 0)
     else:
         parts_attr = None
         bparts = partn
@@ -337,7 +337,8 @@ def q_default(tier='quick'):
     order = Selector('order', perms(3) if tier == 'thorough' else [(0, 1, 2), (2, 1, 0), (1, 0, 2)])
     sch_a = Schema(NS1, [addr1, der, user], prefixes={'m': NS2}, imports=[(NS2, 'b.xsd')], order=order, default_ns=NS1)
     sc = Scenario('Q-default', {'a.xsd': sch_a, 'b.xsd': sch_b}, 'a.xsd', [order])
-    return sc, Info(schemas={'a.xsd': sch_a, 'b.xsd': sch_b}, simple=[], subjects=[], default=True)
+    return sc, Info(schemas={'a.xsd': sch_a, 'b.xsd': sch_b}, simple=[], subjects=[('a.xsd', addr1)], default=True,
+                    derived=[('a.xsd', der, ('a.xsd', addr1))], bases={'Address': None, 'WeightedAddress': ('a.xsd', addr1)})
 
 
 def x_cross3(tier='quick'):
@@ -365,3 +366,110 @@ def three_ns_doc():
     sch_o = Schema('http://example.com/order', [order], prefixes={'ord': 'http://example.com/order', 'cus': 'http://example.com/customer', 'pro': 'http://example.com/product'},
                    imports=[('http://example.com/customer', 'customer.xsd'), ('http://example.com/product', 'product.xsd')])
     return {'order.xsd': sch_o, 'customer.xsd': sch_c, 'product.xsd': sch_p}
+
+
+# ------------------------------------------------------------------------------------------------ C07: facets
+
+FACETS = ['minInclusive', 'maxInclusive', 'minExclusive', 'maxExclusive', 'length', 'minLength', 'maxLength']
+RUST_FACET = {'minInclusive': 'min_inclusive', 'maxInclusive': 'max_inclusive', 'minExclusive': 'min_exclusive', 'maxExclusive': 'max_exclusive',
+              'length': 'length', 'minLength': 'min_length', 'maxLength': 'max_length'}
+
+
+def r_facets(tier='quick', as_attr=False, group='num'):
+    """restricted simple type: every supported facet of one group (numeric / length) absent or one of several values (incl.
+    negative / i32 boundary), written as child elements or as attributes of xs:restriction; 0..2 enumeration values; plus
+    unsupported facets. The other group's facets are fixed (present)."""
+    numvals = [ABSENT, '0', '-5', '2147483647', '-2147483648'] if tier == 'thorough' else [ABSENT, '0', '-5', '2147483647']
+    lenvals = [ABSENT, '0', '3', '255']
+    sels = {}
+    facets = {}
+    for f in FACETS:
+        is_num = 'clusive' in f
+        if (group == 'num') == is_num:
+            sel = Selector('f_' + f, numvals if is_num else lenvals)
+            sels[f] = sel
+            facets[f] = sel
+        else:
+            facets[f] = '7'
+            sels[f] = '7'
+    nenum = Selector('n_enum', [0, 1, 2])
+    base = Selector('base', ['xs:string', 'xs:int', 'xs:long'] if tier == 'thorough' else ['xs:string', 'xs:int'])
+    st = ST('Code', base, dict(facets, pattern='[A-Z]+', whiteSpace='collapse', totalDigits='4'), facets_as_attr=as_attr)
+    sch = Schema(NS1, [st, CT('Holder', Seq([El('code', 't:Code'), El('codes', 't:Code', '0', 'unbounded'), El('maybe', 't:Code', '0')]))], prefixes={'t': NS1})
+    tree = sch.tree()
+    # enumerations: two optional children of xs:restriction
+    from xmltree import Opt as _Opt, E as _E
+    restr = tree.children[0].children[-1]
+    restr.children.append(_Opt(_E('xs:enumeration', {'value': 'A'}), nenum.var >= 1))
+    restr.children.append(_Opt(_E('xs:enumeration', {'value': 'b c'}), nenum.var >= 2))
+    sc = Scenario('R-facets-%s-%s' % ('attr' if as_attr else 'child', group), {'a.xsd': tree}, 'a.xsd', [x for x in sels.values() if isinstance(x, Selector)] + [nenum, base])
+    return sc, Info(schemas={'a.xsd': sch}, facets=sels, nenum=nenum, base=base, simple=[('a.xsd', st)], subjects=[])
+
+
+def q_three(tier='quick'):
+    """two imported files BOTH define a type of the same local name; the start file's own type of that name is declared
+    after its use; base= names one of the three by a symbolic prefix"""
+    base_b = CT('Base', Seq([El('b_only', 'xs:string')]))
+    base_c = CT('Base', Seq([El('c_only', 'xs:int')]))
+    base_a = CT('Base', Seq([El('a_only', 'xs:boolean')]))
+    sch_b = Schema(NS2, [base_b], prefixes={'b': NS2})
+    sch_c = Schema(NS3, [base_c], prefixes={'c': NS3})
+    bref = Selector('base_ref', ['a:Base', 'b:Base', 'c:Base'])
+    der = CT('Derived', Seq([El('own', 'xs:string')]), base=bref)
+    user = CT('User', Seq([El('u', bref)]))
+    order = Selector('order', perms(3) if tier == 'thorough' else [(0, 1, 2), (2, 1, 0), (1, 0, 2)])
+    sch_a = Schema(NS1, [der, user, base_a], prefixes={'a': NS1, 'b': NS2, 'c': NS3}, imports=[(NS2, 'b.xsd'), (NS3, 'c.xsd')], order=order)
+    sc = Scenario('Q-three', {'a.xsd': sch_a, 'b.xsd': sch_b, 'c.xsd': sch_c}, 'a.xsd', [bref, order])
+    return sc, Info(schemas={'a.xsd': sch_a, 'b.xsd': sch_b, 'c.xsd': sch_c}, bref=bref, three=True, simple=[], subjects=[])
+
+
+def q_nested(tier='quick'):
+    """the target namespace has NO prefix on the schema root; a prefix for it is bound on a nested element (the
+    complexType that uses it), next to a prefix of an imported namespace"""
+    item_a = CT('Item', Seq([El('ia', 'xs:string')]))
+    note = GEl('Note', content=Seq([El('text', 'xs:string')]))
+    item_b = CT('Item', Seq([El('ib', 'xs:int')]))
+    sch_b = Schema(NS2, [item_b], prefixes={'b': NS2})
+    order_t = CT('Order', Seq([El('own', 'tns:Item'), El('other', 'b:Item'), El(ref='tns:Note')]), ns={'tns': NS1})
+    order = Selector('order', perms(3) if tier == 'thorough' else [(0, 1, 2), (2, 1, 0), (2, 0, 1)])
+    sch_a = Schema(NS1, [item_a, note, order_t], prefixes={'b': NS2}, imports=[(NS2, 'b.xsd')], order=order)
+    sc = Scenario('Q-nested', {'a.xsd': sch_a, 'b.xsd': sch_b}, 'a.xsd', [order])
+    return sc, Info(schemas={'a.xsd': sch_a, 'b.xsd': sch_b}, nested=True, simple=[], subjects=[])
+
+
+def n_shared(tier='quick'):
+    """two imported files share ONE target namespace; all its components belong in the single module of that namespace,
+    for both import orders"""
+    shared = 'http://example.com/shop/types'
+    cust = CT('CustomerType', Seq([El('name', 'xs:string')]))
+    ordr = CT('OrderType', Seq([El('total', 'xs:int')]))
+    sch_c = Schema(shared, [cust], prefixes={'t': shared})
+    sch_o = Schema(shared, [ordr], prefixes={'t': shared})
+    main = CT('Basket', Seq([El('customer', 't:CustomerType'), El('order', 't:OrderType')]))
+    swap = Selector('import_order', [('customer.xsd', 'order.xsd'), ('order.xsd', 'customer.xsd')])
+    scs = []
+    for i, imp in enumerate(swap.options):
+        sch_m = Schema('http://example.com/shop/main', [main], prefixes={'m': 'http://example.com/shop/main', 't': shared}, imports=[(shared, imp[0]), (shared, imp[1])])
+        sc = Scenario('N-shared-%d' % i, {'main.xsd': sch_m, 'customer.xsd': sch_c, 'order.xsd': sch_o}, 'main.xsd', [])
+        scs.append((sc, Info(schemas={'main.xsd': sch_m, 'customer.xsd': sch_c, 'order.xsd': sch_o}, shared=shared, simple=[], subjects=[])))
+    return scs
+
+
+def w_hdr_xns(tier='quick'):
+    """two header parts whose elements live in DIFFERENT namespaces (one in an imported schema), in both binding orders"""
+    sec = 'http://example.com/security'
+    auth = GEl('AuthToken', content=Seq([El('token', 'xs:string')]))
+    sch_s = Schema(sec, [auth], prefixes={'sec': sec})
+    els = [body_el('GetQuoteRequest'), body_el('GetQuoteResponse'), GEl('TraceInfo', content=Seq([El('id', 'xs:string')]))]
+    hsel = Selector('header_order', [('auth', 'trace'), ('trace', 'auth')])
+    out = []
+    for i, ho in enumerate(hsel.options):
+        sch = Schema(NSW, els, prefixes={'sec': sec}, imports=[(sec, 'security.xsd')])
+        msgs = [Msg('GetQuoteIn', [('parameters', 'tns:GetQuoteRequest'), ('auth', 'sec:AuthToken'), ('trace', 'tns:TraceInfo')]),
+                Msg('GetQuoteOut', [('parameters', 'tns:GetQuoteResponse')])]
+        op = Op('GetQuote', 'tns:GetQuoteIn', 'tns:GetQuoteOut', body_parts='parameters', headers=list(ho), action='http://example.com/a')
+        w = Wsdl(NSW, sch, msgs, [op], prefixes={'sec': sec})
+        sc = Scenario('W-hdr-xns-%d' % i, {'svc.wsdl': w.tree(), 'security.xsd': sch_s}, 'svc.wsdl', [])
+        out.append((sc, Info(wsdl=w, svc='OrdersService', headers_ns={'AuthToken': sec, 'TraceInfo': NSW},
+                             ops=[dict(name='GetQuote', body_el='GetQuoteRequest', headers=['AuthToken', 'TraceInfo'], has_output=True, out_el='GetQuoteResponse')])))
+    return out
